@@ -4,6 +4,7 @@ import (
 	"go/ast"
 	"go/token"
 	"go/types"
+	"strings"
 
 	"verif/internal/core"
 	"verif/internal/flow"
@@ -34,6 +35,15 @@ func init() { Registry["C01"] = c01 }
 // their types / the spec field they are initialised from. Mutants re-tried on the refactored forms:
 // 405 before 400 in the extracted tail → R-C01-4; method flag set on a path mismatch in the
 // extracted path walk → R-C01-4; failed() inverted → R-C01-5; last match wins → R-C01-1.
+//
+// Second iteration: the flags may live in a scratch struct (value or pointer) handed to a per-rule
+// helper that returns nil when the rule does not decide; a route that comes back from such a helper
+// is recognised as a fresh success route by a path-sensitive source tracker (muxSrc, c07.go); the
+// port may be stripped in a helper (R-C01-6 follows the first result of SplitHostPort through
+// results and parameters); predicates (isFailure, matchAnyHost, isExactPath ..) are interpreted in
+// place; the deferred write-out may be a method of a struct of the captured variables. Mutants
+// re-tried: helper that never strips → R-C01-6; method flag set on a path mismatch in searchRule
+// → R-C01-4.
 func c01(c *core.Ctx) string {
 	c.Rule("R-C01-1", "success-return gate: every (uncached) return of a success route for path p is reached only with host-match, path-match, method-match true and (p has no header conditions or header-match true), all established in the current iteration")
 	c.Rule("R-C01-2", "first match: the search ranges over rules then paths in index order; loop variables are not reassigned; no goto / goroutine; the success return is inside the inner loop")
@@ -229,6 +239,34 @@ type serveInfo struct {
 	opaque     []types.Object
 
 	routeAliases []*ast.Ident
+	errAliases   []*ast.Ident    // parameters / locals that alias the fetch error
+	errIsCalls   []*ast.CallExpr // errors.Is(<fetch error>, ErrRequestEntityTooLarge)
+}
+
+// errNil reports what st knows about "FetchPayload's error is nil".
+func (s *serveInfo) errNil(st *flow.State) flow.Val {
+	for _, id := range append([]*ast.Ident{s.errVar}, s.errAliases...) {
+		if v := st.Get(s.f.NilKey(id)); v != flow.Unknown {
+			return v
+		}
+	}
+	return flow.Unknown
+}
+
+// errTooLarge reports whether st knows FetchPayload's error to be the too-large sentinel
+// (err == ErrRequestEntityTooLarge or errors.Is(err, ErrRequestEntityTooLarge)).
+func (s *serveInfo) errTooLarge(st *flow.State) bool {
+	for _, id := range append([]*ast.Ident{s.errVar}, s.errAliases...) {
+		if st.Is("eq:"+s.f.Render(id)+"==@"+Mod+"pkg/protocols/httpprot.ErrRequestEntityTooLarge", flow.True) {
+			return true
+		}
+	}
+	for _, call := range s.errIsCalls {
+		if st.Is(s.f.CallKey(call), flow.True) {
+			return true
+		}
+	}
+	return false
 }
 
 const evRewritten = "ev:rewritten"
@@ -352,7 +390,20 @@ func analyzeServe(c *core.Ctx, rule string) *serveInfo {
 				aboutRoute = true
 			}
 		}
-		if kind[fo] != "" || (!muxReachCalls(g, 3, isRole) && !aboutRoute) {
+		// small predicates (isEntityTooLarge(err), route.isFailure()) are interpreted too: what they
+		// test is what the rules ask about
+		predicate := false
+		if fd, ok := g.Node.(*ast.FuncDecl); ok && sig.Results().Len() == 1 && types.Identical(sig.Results().At(0).Type(), types.Typ[types.Bool]) && len(fd.Body.List) <= 4 {
+			predicate = true
+			ast.Inspect(fd.Body, func(n ast.Node) bool {
+				switch n.(type) {
+				case *ast.ForStmt, *ast.RangeStmt, *ast.GoStmt, *ast.DeferStmt:
+					predicate = false
+				}
+				return predicate
+			})
+		}
+		if kind[fo] != "" || (!muxReachCalls(g, 3, isRole) && !aboutRoute && !predicate) {
 			opaque[fo] = true
 		}
 	}
@@ -412,6 +463,22 @@ func analyzeServe(c *core.Ctx, rule string) *serveInfo {
 		return nil
 	}
 	s.vf.stop[s.vf.obj(s.routeVar)] = true
+	s.vf.stop[s.vf.obj(s.errVar)] = true
+	isErrVar := func(o types.Object) bool { return o == s.vf.obj(s.errVar) }
+	for o, id := range s.vf.ident {
+		if v, ok := o.(*types.Var); ok && !v.IsField() && !isErrVar(o) && types.Identical(v.Type(), types.Universe.Lookup("error").Type()) && s.vf.allPaths(id, false, isErrVar) {
+			s.errAliases = append(s.errAliases, id)
+		}
+	}
+	for _, g := range s.fns {
+		for _, call := range calls(g.Body, true) {
+			if calleeFull(g, call) == "errors.Is" && len(call.Args) == 2 && s.vf.allPaths(call.Args[0], false, isErrVar) {
+				if vs := s.vf.flat(call.Args[1]); len(vs) == 1 && vs[0].root != nil && vs[0].root.Name() == "ErrRequestEntityTooLarge" {
+					s.errIsCalls = append(s.errIsCalls, call)
+				}
+			}
+		}
+	}
 	for o, id := range s.vf.ident {
 		if v, ok := o.(*types.Var); !ok || v.IsField() || !muxIsPtrTo(v.Type(), ro.routeT) || s.isRouteVar(o) {
 			continue
@@ -438,6 +505,16 @@ func analyzeServe(c *core.Ctx, rule string) *serveInfo {
 						k = "ev:fail:" + tv.Value.ExactString()
 					} else if s.vf.allPaths(code, false, s.isRouteVar, s.ro.codeF) {
 						k = "ev:fail:route-code"
+					} else if id := muxIdentOf(code); id != nil {
+						// a status chosen into a local: its constant value on this path
+						pre := "eq:" + f.Render(id) + "=="
+						for _, fact := range st.Facts() {
+							if strings.HasPrefix(fact, pre) && strings.HasSuffix(fact, "=T") {
+								if v := fact[len(pre) : len(fact)-2]; v != "" && v[0] >= '1' && v[0] <= '9' {
+									k = "ev:fail:" + v
+								}
+							}
+						}
 					}
 					st.Set(k, flow.True)
 				}
@@ -578,94 +655,74 @@ func c01Host(c *core.Ctx) {
 		return
 	}
 	cons := muxFuncConstruct(f)
+	fns := reach(f, 2)
+	vf := newMuxFlow(fns)
 	var split *ast.CallExpr
-	for _, call := range calls(f.Body, false) {
-		if calleeFull(f, call) == "net.SplitHostPort" {
-			split = call
+	for _, g := range fns {
+		for _, call := range calls(g.Body, true) {
+			if calleeFull(g, call) == "net.SplitHostPort" {
+				split = call
+			}
 		}
 	}
 	if split == nil {
-		if muxReachCalls(f, 2, func(h *flow.Func, call *ast.CallExpr) bool { return calleeFull(h, call) == "net.SplitHostPort" }) {
-			c.Undecide("R-C01-6", cons+"|port stripped via net.SplitHostPort", pos(c, f.Body), "the host is split in a helper of the matcher: the flow of the stripped host into the comparisons is not followed")
-			return
-		}
 		c.Violate("R-C01-6", cons+"|port stripped via net.SplitHostPort", pos(c, f.Body), "the host matcher does not use net.SplitHostPort: bracketed IPv6 literals and ports are not separated correctly (\"[::1]:8080\" must compare as \"::1\")")
 		return
 	}
 	// h, _, err := net.SplitHostPort(host)
-	var hObj, errObj, srcObj types.Object
-	ast.Inspect(f.Body, func(n ast.Node) bool {
-		if as, ok := n.(*ast.AssignStmt); ok && len(as.Rhs) == 1 && as.Rhs[0] == split && len(as.Lhs) == 3 {
-			if id, ok := as.Lhs[0].(*ast.Ident); ok {
-				hObj = f.Info.Defs[id]
-				if hObj == nil {
-					hObj = f.Info.Uses[id]
+	var errID *ast.Ident
+	for _, g := range fns {
+		ast.Inspect(g.Body, func(n ast.Node) bool {
+			if as, ok := n.(*ast.AssignStmt); ok && len(as.Rhs) == 1 && ast.Unparen(as.Rhs[0]) == ast.Expr(split) && len(as.Lhs) == 3 {
+				if id := muxIdentOf(as.Lhs[2]); id != nil && id.Name != "_" {
+					errID = id
 				}
 			}
-			if id, ok := as.Lhs[2].(*ast.Ident); ok {
-				errObj = f.Info.Defs[id]
-				if errObj == nil {
-					errObj = f.Info.Uses[id]
-				}
-			}
-		}
-		return true
-	})
+			return true
+		})
+	}
+	// the value split must be the request's Host
+	srcOK := false
 	if len(split.Args) == 1 {
-		if id, ok := ast.Unparen(split.Args[0]).(*ast.Ident); ok {
-			srcObj = f.Info.Uses[id]
+		vs := vf.flat(split.Args[0])
+		srcOK = len(vs) > 0
+		for _, v := range vs {
+			call, ok := v.expr.(*ast.CallExpr)
+			if ok && call == split {
+				continue // the variable is overwritten with the stripped host later
+			}
+			if v.root != nil || !ok || !calleeIs(f, call, "(*pkg/protocols/httpprot.Request).Host") {
+				srcOK = false
+			}
 		}
 	}
-	if hObj == nil || errObj == nil || srcObj == nil {
-		c.Undecide("R-C01-6", cons+"|port stripped via net.SplitHostPort", pos(c, split), "unrecognised use of net.SplitHostPort")
+	c.Check(srcOK, "R-C01-6", cons+"|host taken from the request", pos(c, split), "SplitHostPort(r.Host())", "the value split is not the request's Host")
+	if errID == nil {
+		c.Violate("R-C01-6", cons+"|compare the stripped host", pos(c, split), "the error of SplitHostPort is never tested: the stripped host is not used when the split succeeds")
 		return
 	}
-	// the source must be assigned from r.Host()
-	srcOK := false
-	ast.Inspect(f.Body, func(n ast.Node) bool {
-		if as, ok := n.(*ast.AssignStmt); ok && len(as.Rhs) == 1 && len(as.Lhs) == 1 {
-			if id, ok := as.Lhs[0].(*ast.Ident); ok && f.Info.Defs[id] == srcObj {
-				if call, ok := as.Rhs[0].(*ast.CallExpr); ok && calleeIs(f, call, "(*pkg/protocols/httpprot.Request).Host") {
-					srcOK = true
-				}
-			}
+	// which variables hold the first result of the split: followed through assignments, parameters
+	// and results of helpers (hostWithoutPort(r.Host()))
+	t := newMuxSrc(f, fns, "hs:", func(e ast.Expr) flow.Val { return flow.Unknown }, inlineSamePkg(f))
+	t.classifyTuple = func(call *ast.CallExpr, idx int) flow.Val {
+		if call == split && idx == 0 {
+			return flow.True
 		}
-		return true
-	})
-	c.Check(srcOK, "R-C01-6", cons+"|host taken from the request", pos(c, split), "SplitHostPort(r.Host())", "the value split is not the request's Host")
-	// uses of the compared host: every comparison/MatchString on srcObj must be in a state where
-	// either the split failed (err != nil) or srcObj was overwritten by h.
-	var errID *ast.Ident
-	ast.Inspect(f.Body, func(n ast.Node) bool {
-		if id, ok := n.(*ast.Ident); ok && f.Info.Uses[id] == errObj && errID == nil {
-			errID = id
-		}
-		return true
-	})
-	res := analyze(c, f, flow.Config{NoHavoc: true,
-		OnNode: func(st *flow.State, n ast.Node) {
-			as, ok := n.(*ast.AssignStmt)
-			if !ok || len(as.Lhs) != 1 || len(as.Rhs) != 1 {
-				return
-			}
-			l, ok1 := as.Lhs[0].(*ast.Ident)
-			r, ok2 := ast.Unparen(as.Rhs[0]).(*ast.Ident)
-			if ok1 && f.Info.Uses[l] == srcObj {
-				if ok2 && f.Info.Uses[r] == hObj {
-					st.Set("ev:stripped", flow.True)
-				} else {
-					st.Set("ev:stripped", flow.False)
-				}
-			}
-		},
-	})
-	if res == nil || errID == nil {
-		if errID == nil {
-			c.Violate("R-C01-6", cons+"|compare the stripped host", pos(c, split), "the error of SplitHostPort is never tested: the stripped host is not used when the split succeeds")
-		}
+		return flow.Unknown
+	}
+	res := muxAnalyzeInl(c, f, t.config(flow.Config{NoHavoc: true}))
+	if res == nil {
 		return
 	}
 	errNil := f.NilKey(errID)
+	isRuleField := func(e ast.Expr) bool {
+		sel, ok := ast.Unparen(e).(*ast.SelectorExpr)
+		if !ok {
+			return false
+		}
+		sl := f.Info.Selections[sel]
+		return sl != nil && sl.Kind() == types.FieldVal && muxSameNamed(muxDerefNamed(sl.Recv()), ro.ruleT)
+	}
 	uses := 0
 	var bad *flow.State
 	for n, sts := range res.At {
@@ -673,36 +730,49 @@ func c01Host(c *core.Ctx) {
 		if !ok {
 			continue
 		}
-		// node uses srcObj in a comparison or MatchString call?
-		usesSrc := false
+		if _, isCall := n.(*ast.CallExpr); isCall {
+			continue
+		}
+		// the host values this condition compares with the rule's host / host expression
+		var compared []*ast.Ident
 		ast.Inspect(e, func(x ast.Node) bool {
-			switch t := x.(type) {
+			switch b := x.(type) {
 			case *ast.BinaryExpr:
-				if t.Op == token.EQL || t.Op == token.NEQ {
-					for _, side := range []ast.Expr{t.X, t.Y} {
-						if id, ok := ast.Unparen(side).(*ast.Ident); ok && f.Info.Uses[id] == srcObj {
-							usesSrc = true
+				if b.Op == token.EQL || b.Op == token.NEQ {
+					for i, side := range []ast.Expr{b.X, b.Y} {
+						other := b.Y
+						if i == 1 {
+							other = b.X
+						}
+						if id := muxIdentOf(side); id != nil && isRuleField(other) {
+							if _, isVar := vf.obj(id).(*types.Var); isVar {
+								compared = append(compared, id)
+							}
 						}
 					}
 				}
 			case *ast.CallExpr:
-				if methodName(t) == "MatchString" {
-					for _, a := range t.Args {
-						if id, ok := ast.Unparen(a).(*ast.Ident); ok && f.Info.Uses[id] == srcObj {
-							usesSrc = true
+				if methodName(b) == "MatchString" {
+					if sel, ok := ast.Unparen(b.Fun).(*ast.SelectorExpr); ok && isRuleField(sel.X) {
+						for _, a := range b.Args {
+							if id := muxIdentOf(a); id != nil {
+								compared = append(compared, id)
+							}
 						}
 					}
 				}
 			}
 			return true
 		})
-		if _, isCall := n.(*ast.CallExpr); isCall || !usesSrc {
+		if len(compared) == 0 {
 			continue
 		}
 		uses++
 		for _, st := range sts {
-			if !st.Is("ev:stripped", flow.True) && !st.Is(errNil, flow.False) {
-				bad = st
+			for _, id := range compared {
+				if t.get(st, id) != flow.True && !st.Is(errNil, flow.False) {
+					bad = st
+				}
 			}
 		}
 	}
